@@ -54,6 +54,10 @@ let obs_default cn pn = match D.default_obs D.database cn pn with
   | D.OutOfFuel -> "FUEL"
   | D.Err _ -> "ERR"
 
+let obs_chain cn = match D.chain_obs D.database cn with
+  | None -> "noclass"
+  | Some l -> String.concat ">" (List.map ocaml_string l)
+
 let strip_prefix pre l =
   let n = String.length pre in
   if String.length l >= n && String.sub l 0 n = pre then Some (String.sub l n (String.length l - n)) else None
@@ -65,7 +69,7 @@ let run path out =
     let cls = ref D.EmptyString in
     List.iter (fun l ->
       match strip_prefix "class " l with
-      | Some c -> cls := coq_string c
+      | Some c -> cls := coq_string c; Printf.fprintf oc "S %s\n" (obs_chain !cls)
       | None ->
         (match strip_prefix "p " l with
          | Some p -> let pn = coq_string p in Printf.fprintf oc "B %s X %s D %s\n" (obs_bin !cls pn) (obs_xml !cls pn) (obs_default !cls pn)
